@@ -417,6 +417,45 @@ GRAPH_CLASSES_THOROUGH = [('Periodogram', 'real'), ('Periodogram', 'complex'), (
                           ('pmusic', 'complex'), ('pev', 'real'), ('MultiTapering', 'real'), ('MultiTapering', 'complex')]
 
 
+def refusal_is_persistent(chk):
+    """An attribute value the estimator refuses (order above the record length, lag beyond the data, NFFT below the
+    model order) makes the read raise; the next read must raise again (or succeed like a fresh object would) - it must
+    not hand out the estimate of the earlier configuration."""
+    n = 0
+    for name in sorted(D.CLASSES):
+        cls = D.CLASSES[name]
+        for dt in ('real', 'complex'):
+            at = {'dt': dt, 'data': 1, 'nfft': D.resolve_nfft(cls.nffts[-1], D.DATA_N[0]), 'samp': 1024, 'scale': False,
+                  'detrend': cls.detrends[0], 'window': cls.windows[0], 'lag': cls.lags[0], 'ar': cls.ar[0], 'ma': cls.ma[0]}
+            N = D.DATA_N[0]
+            cands = [('NFFT', 2)]
+            if cls.kind == 'parametric':
+                cands += [('ar_order', N + 4), ('ar_order', 10 * N)]
+                if cls.ma != (0,):
+                    cands.append(('ma_order', N + 4))
+            if cls.kind == 'fourier' or name == 'parma':
+                cands.append(('lag', N + 3))
+            for attr, bad in cands:
+                ok, p = call_guard(cls.ctor, at)
+                if not ok:
+                    continue
+                ok0, first = call_guard(lambda: np.array(p.psd))
+                oks, _ = call_guard(setattr, p, attr, bad)
+                if not (ok0 and oks):
+                    continue                      # the setter itself refuses the value: nothing is stored
+                ok1, _r = call_guard(lambda: np.array(p.psd))
+                if ok1:
+                    continue                      # the estimator accepts the value
+                ok2, second = call_guard(lambda: np.array(p.psd))
+                n += 1
+                if ok2 and second.shape == first.shape and np.allclose(second, first, rtol=1e-9, atol=0, equal_nan=True):
+                    chk.violation('C07:%s:stale-after-refusal:%s' % (name, attr),
+                                  '%s (%s data): %s = %r makes the first read raise, the second read returns the estimate of the earlier configuration'
+                                  % (name, dt, attr, bad), {'cls': name, 'dt': dt, 'attr': attr, 'value': bad, 'init': at})
+    chk.count('refusal-is-persistent', 'refused-configurations', n)
+    chk.evaluations += n
+
+
 def run(chk, classes=None):
     quick = chk.tier == 'quick'
     rng = random.Random(7000 + chk.seed)
@@ -435,6 +474,7 @@ def run(chk, classes=None):
         for dt in ('real', 'complex'):
             refs = D.RefCache(cls)
             random_walks(chk, cls, dt, rec, refs, rng, nwalks=12 if quick else 150, length=14 if quick else 40)
+    refusal_is_persistent(chk)
     validate(chk, rec, 'trace-validation')
     chk.count('trace-validation', 'events', len(rec.events))
     for k in (1, len(rec.events) // 2):
